@@ -609,6 +609,24 @@ def task_inprocess(args) -> list[dict]:
         pp = check_positions(comp.routine_ops, routines)
         if pp:
             rec["problems"].append({"clause": "ii", "symptom": "jump-parameter-is-not-the-position-of-its-target", "detail": "; ".join(pp[:3])})
+        # the same contract of build_routines_json on the tables with an op-free routine (what a label-only body compiles to)
+        # inserted at a position derived from the text: it contributes no position (seeded change C15-m9)
+        if not pp and not errs:
+            from explorerscript.ssb_converting.ssb_data_types import SsbRoutineInfo, SsbRoutineType
+
+            k = int(hashlib.sha1(text.encode()).hexdigest(), 16) % (len(comp.routine_ops) + 1)
+            infos = list(comp.routine_infos[:k]) + [SsbRoutineInfo(SsbRoutineType.GENERIC, 0)] + list(comp.routine_infos[k:])
+            names = list(comp.named_coroutines[:k]) + ["n/a"] + list(comp.named_coroutines[k:])
+            rops = [list(r) for r in comp.routine_ops[:k]] + [[]] + [list(r) for r in comp.routine_ops[k:]]
+            try:
+                routines2 = json.loads(json.dumps(_quiet(build_routines_json, infos, names, rops)))
+                pp2 = check_positions(rops, routines2)
+                if not pp2 and (len(routines2) != len(rops) or routines2[k].get("ops") != []):
+                    pp2 = [f"routine {k} of the output is not the op-free routine"]
+            except Exception as e:  # noqa: BLE001
+                pp2 = [f"build_routines_json raises {type(e).__name__}: {e}"[:200]]
+            if pp2:
+                rec["problems"].append({"clause": "ii", "symptom": "op-free-routine-inserted-jump-parameter-is-not-the-position-of-its-target", "detail": f"op-free routine inserted at index {k}: " + "; ".join(pp2[:3])})
         out.append(rec)
     return out
 
